@@ -82,4 +82,45 @@ example : (download id (start (some 2) [.body 2, .httpError] [.avail 1, .avail 1
 example : (download id (start (some 1) [] [.avail 1])).2 = .skipped := by decide
 example : (download id (start none [.body 2, .body 2] [.avail 1, .avail 1])).2 = .mismatch := by decide
 
+/-! ### The text of the checksum file (`text.split()[0]`, phylib/io/datasets.py:86)
+
+"Checksum file correct / wrong" of the statement is about the checksum the file PUBLISHES, not about its layout:
+the code documents (datasets.py:85) the md5sum line `<md5>  <name>` or a bare `<md5>`, and reads the first
+whitespace-separated field. -/
+
+/-- Every layout of a checksum file - any whitespace before the digest (indentation, blank lines), and after
+the digest either nothing or a whitespace character followed by anything (separator and file name, binary
+marker, CR/LF, further lines) - publishes the digest: the parse returns exactly `tok`.  The hypotheses are what
+makes `tok` a field (non-empty, no whitespace inside); a hexadecimal digest satisfies them. -/
+theorem first_field_of_layout (lead tok rest : List Nat) (hl : ∀ c ∈ lead, isWhite c = true)
+    (hne : tok ≠ []) (ht : ∀ c ∈ tok, isWhite c = false)
+    (hr : rest = [] ∨ ∃ w r, rest = w :: r ∧ isWhite w = true) :
+    firstField (lead ++ (tok ++ rest)) = some tok :=
+  Lemmas.first_field_of_layout lead tok rest hl hne ht hr
+
+/-- Hence the answer `_check_md5_of_url` works with (available with which checksum / unavailable) is the same for
+every layout as for the bare digest - and with it, everything the theorems above say about `download`. -/
+theorem checksum_layout_irrelevant (render : List (Nat × List Nat)) (other : Nat) (lead tok rest : List Nat)
+    (hl : ∀ c ∈ lead, isWhite c = true) (hne : tok ≠ []) (ht : ∀ c ∈ tok, isWhite c = false)
+    (hr : rest = [] ∨ ∃ w r, rest = w :: r ∧ isWhite w = true) :
+    parseSum render other (.text (lead ++ (tok ++ rest))) = parseSum render other (.text tok) :=
+  Lemmas.parse_layout_irrelevant render other lead tok rest hl hne ht hr
+
+/-- A checksum file that holds no field at all (empty, or whitespace only) is "checksum unavailable"
+(`[][0]` raises IndexError inside the `try`), never a mismatch. -/
+theorem blank_checksum_unavailable (render : List (Nat × List Nat)) (other : Nat) (ws : List Nat)
+    (h : ∀ c ∈ ws, isWhite c = true) : parseSum render other (.text ws) = .missing :=
+  Lemmas.parse_blank_missing render other ws h
+
+/-! Non-vacuity: `" ab\t*x\r\n"` (indented, TAB separator, binary marker, CRLF) publishes `ab`; hash value 1
+renders as `ab`, so the answer is `.avail 1`; a whitespace-only file is `.missing`; an unknown field is `other`. -/
+example : firstField [32, 97, 98, 9, 42, 120, 13, 10] = some [97, 98] := by decide
+example : parseSum [(1, [97, 98]), (2, [99, 100])] 9 (.text [32, 97, 98, 9, 42, 120, 13, 10]) = .avail 1 := by decide
+example : parseSum [(1, [97, 98]), (2, [99, 100])] 9 (.text [10, 99, 100]) = .avail 2 := by decide
+example : parseSum [(1, [97, 98])] 9 (.text [32, 10]) = .missing := by decide
+example : parseSum [(1, [97, 98])] 9 (.text [97, 98, 99]) = .avail 9 := by decide
+example : parseSum [(1, [97, 98])] 9 .error = .missing := by decide
+example : (download id (start none [.body 2, .body 1]
+    ([.text [32, 97, 98, 10], .text [9, 97, 98]].map (parseSum [(1, [97, 98])] 9)))).2 = .done := by decide
+
 end PhyVerif.C20
